@@ -40,6 +40,14 @@ def run(chk):
             for codec in (0, 1, 2):
                 extra.append(filelevel.Case(zz, 100000, codec, [("a", r) for r in rs] + [("w",), ("c",)], "large-page"))
                 extra.append(filelevel.Case(zz, n // 3 + 1, codec, [("a", r) for r in rs] + [("w",), ("c",)], "large-page"))
+    # a page body beyond 64 KiB under every codec (incompressible string of 70 000 bytes): writers that hand a large
+    # body to the sink in pieces (seeded change C09-r8: the error of a piece was shadowed and dropped)
+    if z is not None:
+        blob = bytes(chk.rng.getrandbits(8) for _ in range(70000))
+        big = ("struct", [("leaf", zoolib.le(1, 8)), ("some", ("leaf", blob)), ("list", [])])
+        small = ("struct", [("leaf", zoolib.le(2, 8)), ("nil",), ("list", [("leaf", zoolib.le(7, 4))])])
+        for codec in (0, 1, 2):
+            extra.append(filelevel.Case(z, 10, codec, [("a", big), ("a", small), ("w",), ("a", small), ("w",), ("c",)], "huge-body"))
     filelevel.run_cases(pair, extra, want_parse=False, want_read=False)
     cases += extra
     ops, meta = [], []
